@@ -109,6 +109,22 @@ def corpus():
     c['acc-giant-length-never-completed'] = ('acceptor', [
         ('burst', enc(RQ_SPEC)), ('user', {'pdu': AC_SPEC}),
         ('burst', [b'\x04\x00\xff\xff\xff\xf0' + b'\x00\x00\x00\x10\x01\x03' + b'ABCDEFGHIJKLMNOPQR']), ('close',)])
+    # a C-STORE-RQ whose COMMAND SET is itself split over two P-DATA-TF PDUs (a peer with a small maximum length),
+    # then its data set
+    cmd = refcmd.encode({0x0002: STORE_UID, 0x0100: 0x0001, 0x0110: 7, 0x0700: 0, 0x0800: 0x0001, 0x1000: '1.2.3.4.5.6'})
+    c['acc-fragmented-command'] = ('acceptor', [
+        ('burst', enc(RQ_SPEC)), ('user', {'pdu': AC_SPEC}),
+        ('burst', enc({'t': 4, 'r': 0, 'pdvs': [{'id': 3, 'data': b'\x01' + cmd[:20]}]},
+                      {'t': 4, 'r': 0, 'pdvs': [{'id': 3, 'data': b'\x03' + cmd[20:]}]},
+                      {'t': 4, 'r': 0, 'pdvs': [{'id': 3, 'data': b'\x02' + b'DATASETBYTES'}]}, REL_RQ)),
+        ('user', {'pdu': REL_RP}), ('close',)])
+    # an unrecognised PDU and the peer's own A-ABORT right behind it (no close: the A-ABORT is what ends it)
+    c['acc-unknown-then-abort'] = ('acceptor', [
+        ('burst', enc(RQ_SPEC)), ('user', {'pdu': AC_SPEC}), ('burst', [UNKNOWN_PDU] + enc(ABORT_SU))])
+    # the local user is sending a five-fragment message when the peer aborts
+    c['req-sending-peer-aborts'] = ('requestor', [
+        ('user', {'pdu': RQ_SPEC}), ('burst', enc(AC_SPEC)), ('user', {'msg': store_rq_pdus(4, pc_id=3)}),
+        ('burst', enc(ABORT_SP)), ('close',)])
     c['req-release-collision'] = ('requestor', [
         ('user', {'pdu': RQ_SPEC}), ('burst', enc(AC_SPEC)), ('user', {'pdu': REL_RQ}),
         ('burst', enc(REL_RQ)), ('user', {'pdu': REL_RP}), ('burst', enc(REL_RP))])
